@@ -21,6 +21,7 @@ import (
 	"io"
 	"math"
 	"net/http"
+	"net/url"
 	"strconv"
 	"strings"
 	"time"
@@ -172,7 +173,19 @@ func (r restClientProtocol) prepareUnmarshalledRequest(op *operation, src []byte
 
 	// And finally from the query string:
 	discardUnknownQueryParams := op.methodConf.restUnmarshalOptions.DiscardUnknownQueryParams
-	for fieldPath, values := range op.queryValues() {
+	// The parameters apply in the order in which they stand in the query. (Ranging over
+	// the parsed url.Values, a map, would bind parameters that touch the same field - its
+	// JSON name and its proto name, two members of a oneof - in a random order.)
+	for _, pair := range strings.Split(op.rawQuery, "&") {
+		if pair == "" || strings.Contains(pair, ";") {
+			continue // (as url.ParseQuery does)
+		}
+		key, value, _ := strings.Cut(pair, "=")
+		fieldPath, keyErr := url.QueryUnescape(key)
+		value, valueErr := url.QueryUnescape(value)
+		if keyErr != nil || valueErr != nil {
+			continue // (as url.Values omits it)
+		}
 		fields, err := resolvePathToFieldDescriptors(
 			msg.Descriptor(), fieldPath, true,
 		)
@@ -182,10 +195,8 @@ func (r restClientProtocol) prepareUnmarshalledRequest(op *operation, src []byte
 			}
 			return err
 		}
-		for _, value := range values {
-			if err := setParameter(msg, fields, value); err != nil {
-				return err
-			}
+		if err := setParameter(msg, fields, value); err != nil {
+			return err
 		}
 	}
 	return nil
